@@ -1524,7 +1524,10 @@ func ruleSessionQerMovedNotSwapped(w *World, r *Report, prop, rule string) {
 			idxVals = append(idxVals, c)
 		}
 	})
-	r.floor(rule+" index searches in MarkSessionQer", len(idxVals), 1)
+	if len(idxVals) == 0 {
+		r.trivial(rule, w.FuncName(f), "MarkSessionQer does not search the lists by index", w.Pos(f.Pos()), "no findItemIndex call (the re-ordering is judged by R03.8 / R09.7)")
+		return
+	}
 	var bad *ssa.Store
 	allInstrs(f, func(i ssa.Instruction) {
 		st, ok := i.(*ssa.Store)
